@@ -37,10 +37,19 @@ static uint64_t af_count_small(void)
 #define AF_NLONG 8
 /* prefix-name members: the first row's name is a prefix of later rows' names (sp|Q9 / sp|Q9.1 / sp|Q91_b), and 12 rows named SEQ1..SEQ12 */
 #define AF_NPREFIX 8
+/* keyword-name members: one row carries a name (over the same character set) that looks like a piece of a format
+   header; its first residue is W (protein) so that "NAME W..." appears at the start of a body line */
+static const char* AF_KEY[] = {"CLUSTAL", "CLUSTALW", "CLUSTAL_O", "CLUSTAL.1", "MSF", "MSF.1", "Name", "Len", "Check", "Weight", "Type",
+                               "PileUp", "multiple", "alignment", "NA_MULTIPLE_ALIGNMENT", "AA_MULTIPLE_ALIGNMENT", "x..", "a|b|", "k-", "_"};
+#define AF_NKEYNAMES 20
+#define AF_NKEY (AF_NKEYNAMES * 3 * 2)
+/* many-row members: more than 50 rows, gaps only in the last rows (51 / 52 / 64 / 101 / 130 rows; 1 or 2 gapped rows; nucleotide / protein) */
+static const int AF_MANYROWS[] = {50, 51, 52, 64, 101, 130};
+#define AF_NMANY (6 * 2 * 2)
 static uint64_t af_count(int tier)
 {
         (void)tier;
-        return af_count_run() + af_count_small() + AF_NLONG + AF_NPREFIX;
+        return af_count_run() + af_count_small() + AF_NLONG + AF_NPREFIX + AF_NKEY + AF_NMANY;
 }
 
 struct af_member {
@@ -138,6 +147,80 @@ static int af_build(uint64_t idx, long seed, const char* tmpdir, struct af_membe
                         a->n = a->m->numseq;
                         kx_msa_rows(a->m, &a->rows, &a->names);
                         a->width = a->m->alnlen;
+                        a->valid = 1;
+                }
+                kx_set_free(&in);
+                return a->valid;
+        }else if(idx >= af_count_run() + af_count_small() + AF_NLONG + AF_NPREFIX + AF_NKEY){
+                int k = (int)(idx - af_count_run() - af_count_small() - AF_NLONG - AF_NPREFIX - AF_NKEY);
+                int rows = AF_MANYROWS[k % 6], ngapped = 1 + (k / 6) % 2, protein = k / 12, w = 24, i, j;
+                uint64_t st = 9100 + (uint64_t)k;
+                static char base[64];
+                char path[400];
+                FILE* f;
+                const char* alpha = protein ? "LKWAVDEGST" : "ACGT";
+                sh_random_seq(&st, alpha, w, base);
+                a->n = rows;
+                a->rows = malloc(sizeof(char*) * (size_t)rows);
+                a->names = malloc(sizeof(char*) * (size_t)rows);
+                for(i = 0; i < rows; i++){
+                        char nm[16];
+                        a->rows[i] = malloc((size_t)w + 1);
+                        for(j = 0; j < w; j++){
+                                a->rows[i][j] = (j == 3 + i % 17) ? alpha[(i / 17) % (int)strlen(alpha)] : base[j];
+                        }
+                        if(i >= rows - ngapped){
+                                a->rows[i][5 + (rows - i)] = '-';
+                                a->rows[i][w - 1] = '-';
+                        }
+                        a->rows[i][w] = 0;
+                        snprintf(nm, sizeof nm, "m%d", i);
+                        a->names[i] = strdup(nm);
+                }
+                snprintf(path, sizeof path, "%s/af_many.afa", tmpdir);
+                f = fopen(path, "w");
+                for(i = 0; i < rows; i++){
+                        fprintf(f, ">%s\n%s\n", a->names[i], a->rows[i]);
+                }
+                fclose(f);
+                a->width = w;
+                a->from_file = 1;
+                a->protein = protein;
+                if(kalign_read_input(path, &a->m, 1) != OK || !a->m){
+                        a->m = NULL;
+                        a->valid = 0;
+                        return -1;
+                }
+                a->valid = 1;
+                return 1;
+        }else if(idx >= af_count_run() + af_count_small() + AF_NLONG + AF_NPREFIX){
+                int k = (int)(idx - af_count_run() - af_count_small() - AF_NLONG - AF_NPREFIX);
+                int key = k % AF_NKEYNAMES, krow = (k / AF_NKEYNAMES) % 3, protein = k / (AF_NKEYNAMES * 3), w = 40, i;
+                uint64_t st = 9900 + (uint64_t)k;
+                struct kx_set in;
+                static char base[64], tmp[64];
+                const char* alpha = protein ? "LKWAVDEGST" : "ACGT";
+                kx_set_init(&in);
+                sh_random_seq(&st, alpha, w, base);
+                for(i = 0; i < 3; i++){
+                        char nm[40];
+                        sh_derive(&st, alpha, base, w, w - i, tmp);
+                        if(protein){
+                                tmp[0] = 'W';
+                        }
+                        if(i == krow){
+                                snprintf(nm, sizeof nm, "%s", AF_KEY[key]);
+                        }else{
+                                snprintf(nm, sizeof nm, "x%d", i);
+                        }
+                        kx_set_add(&in, tmp, nm);
+                }
+                a->m = kx_make_msa(&in);
+                if(a->m && kalign_run(a->m, 1, KALIGN_TYPE_UNDEFINED, -1, -1, -1) == OK){
+                        a->n = a->m->numseq;
+                        kx_msa_rows(a->m, &a->rows, &a->names);
+                        a->width = a->m->alnlen;
+                        a->protein = (a->m->biotype == ALN_BIOTYPE_PROTEIN);
                         a->valid = 1;
                 }
                 kx_set_free(&in);
